@@ -76,6 +76,12 @@ DecodeExpect(bytes) ==
 WhyProp(why) == IF why = "armor" THEN "C03" ELSE IF why = "unsupported" THEN "C09"
                 ELSE IF why = "short" THEN "C14" ELSE "C18"
 
+\* a message of a protocol-legal length was rejected: C14 (decode what is present), C04 (the values are
+\* not reported), and for the binary types C15 (every payload length up to the protocol maximum)
+Rejected(px) ==
+    {<<"C14", "decodable payload rejected">>, <<"C04", "decodable payload rejected">>}
+    \cup (IF px.dm.t \in {6, 8, 17} THEN {<<"C15", "binary message of a legal length rejected">>} ELSE {})
+
 \* a message was produced where only an error is acceptable: if it is not even of the kind the six
 \* type bits select, that contradicts C09 as well
 WrongKind(px, msgseq) ==
@@ -122,8 +128,7 @@ JudgeLine(e, st) ==
             ELSE \* accepted classes
             IF e.r = "err_nmea"
             THEN IF needDecode
-                 THEN IF px.must = "ok" THEN {<<"C14", "decodable payload rejected">>, <<"C04", "decodable payload rejected">>}
-                      ELSE {}
+                 THEN IF px.must = "ok" THEN Rejected(px) ELSE {}
                  ELSE IF o.class = "single" THEN V("C08", "well-formed sentence rejected")
                       ELSE V("C05", "in-sequence fragment rejected (" \o o.class \o ")")
             ELSE IF e.r # r0 THEN V("C05", "expected " \o r0 \o " got " \o e.r)
@@ -218,8 +223,7 @@ JudgeDecode(e) ==
     LET px == DecodeExpect(e.b)
     IN  IF e.r = "panic" THEN V("C01", "decode panic: " \o e.pmsg)
         ELSE IF e.r # "ok"
-        THEN IF px.must = "ok" THEN {<<"C14", "decodable payload rejected">>, <<"C04", "decodable payload rejected">>}
-             ELSE {}
+        THEN IF px.must = "ok" THEN Rejected(px) ELSE {}
         ELSE IF px.must = "err" THEN V(WhyProp(px.why), "payload that must be rejected was decoded (" \o px.why \o ")")
                                      \cup WrongKind(px, e.msg)
         ELSE MsgJudge(px, e.msg)
